@@ -68,6 +68,8 @@ class Path:
         self.unknown = 0
         self.notes = {}
         self.nvars = 0
+        self.decided = {}
+        self._keep = []
 
     # -- variables -------------------------------------------------------
     def int(self, name, bits=None, lo=None, hi=None):
@@ -128,12 +130,16 @@ class Path:
             return True
         if z3.is_false(c):
             return False
+        key = c.get_id()
+        if key in self.decided:
+            return self.decided[key]
         i = len(self.trace)
         self.x.stats.decisions += 1
         if i < len(self.prefix):
             d = self.prefix[i]
             self.trace.append(d)
             self.solver.add(c if d else z3.Not(c))
+            self._remember(c, d)
             return d
         self._ensure_model()
         d = z3.is_true(self.model.eval(c, model_completion=True))
@@ -149,10 +155,19 @@ class Path:
         self.solver.pop()
         self.solver.add(c if d else z3.Not(c))
         self.trace.append(d)
+        self._remember(c, d)
         if len(self.trace) > self.x.max_depth:
             self.flag('decision depth limit %d exceeded' % self.x.max_depth)
             raise EngineLimit(self.flagged)
         return d
+
+    def _remember(self, c, d):
+        # ASTs are hash-consed: the same condition asked again on this path is not a new decision
+        self.decided[c.get_id()] = d
+        self._keep.append(c)
+        n = z3.simplify(z3.Not(c))
+        self.decided[n.get_id()] = not d
+        self._keep.append(n)
 
     def flag(self, msg):
         if self.flagged is None:
@@ -655,10 +670,13 @@ class SymInt:
         return self
 
     def __format__(self, spec):
-        return '<sym:%s>' % spec if spec else '<sym>'
+        return '<sym:%s>' % spec if spec else str(self)
 
     def __str__(self):
-        return '<sym>'
+        # "some decimal spelling of this integer": a token that the int()/eval() stubs of
+        # the shimmed module map back to this very value (eval(str(n)) == n for ints)
+        hook = STR_HOOK[0]
+        return hook(self) if hook else '<sym>'
 
     def __repr__(self):
         return '<SymInt w=%d [%d,%d]>' % (self.e.size(), self.lo, self.hi)
@@ -689,6 +707,9 @@ def _symmod(a, n):
     r = z3.SRem(ae, ne)
     r = z3.If(r < 0, r + ne, r)
     return SymInt._mk(r, 0, n.hi - 1)
+
+
+STR_HOOK = [None]
 
 
 class SymFrac:
